@@ -71,8 +71,27 @@ func eqArchive(a, b *xt.Archive) string {
 	return ""
 }
 
+// parse calls the real Parse on a private copy of in that has spare capacity filled with
+// guard bytes: Parse must read its argument only - neither the bytes of the slice nor the
+// memory behind its end (which belongs to the caller) may change.
 func parse(in []byte) (a *xt.Archive, ok bool) {
-	pv, st := vlib.Try(func() { a = txtar.Parse(in) })
+	const guard = 8
+	buf := make([]byte, len(in)+guard)
+	copy(buf, in)
+	for i := len(in); i < len(buf); i++ {
+		buf[i] = 0xA5
+	}
+	arg := buf[:len(in)] // cap(arg) = len(in)+guard
+	pv, st := vlib.Try(func() { a = txtar.Parse(arg) })
+	if !bytes.Equal(buf[:len(in)], in) {
+		report("parse-modifies-its-input", in, fmt.Sprintf("after Parse the argument holds %s", vlib.Q(buf[:len(in)])))
+	}
+	for i := len(in); i < len(buf); i++ {
+		if buf[i] != 0xA5 {
+			report("parse-writes-behind-its-input", in, fmt.Sprintf("Parse was given a slice of length %d with spare capacity; afterwards byte %d behind its end is %#x (was the guard value 0xa5): it wrote into memory that belongs to the caller", len(in), i-len(in), buf[i]))
+			break
+		}
+	}
 	if pv != nil {
 		report("parse-panic", in, fmt.Sprintf("panic: %v at %s", pv, vlib.RepoFrame(st)))
 		return nil, false
@@ -205,7 +224,7 @@ func main() {
 			r.DistinctBulk(2)
 			return
 		}
-		r.Rule("inputs: (1) every string over {'-',' ',LF,CR,'a','>'} up to the length bound, bare and prefixed with \"x\\n\"; (2) random texts of marker look-alike lines (LF/CRLF/no final NL, arbitrary bytes); (3) random well-formed archives. Non-trivial = contains at least one line starting with \"-- \" (exhaustive part counted by construction, random part by content hash).")
+		r.Rule("Every Parse call gets its input as a slice with spare capacity filled with guard bytes, which must be intact afterwards (Parse only reads its argument). inputs: (1) every string over {'-',' ',LF,CR,'a','>'} up to the length bound, bare and prefixed with \"x\\n\"; (2) random texts of marker look-alike lines (LF/CRLF/no final NL, arbitrary bytes); (3) random well-formed archives. Non-trivial = contains at least one line starting with \"-- \" (exhaustive part counted by construction, random part by content hash).")
 		r.Assume("golang.org/x/tools/txtar v0.26.0 is the reference definition for CR-free input")
 		W := runtime.NumCPU()
 		maxLen := r.Pick(8, 10)
